@@ -573,11 +573,38 @@ func execA(c caseA, each func(crashRun)) (n int, err error) {
 				if cr, err := cl().Call("POST", "/"+bkt+"/"+key, s3c.Q("uploadId", pr.uploadID), nil, s3c.CompleteXML([]s3c.Part{{PartNumber: 1, ETag: hex.EncodeToString(sum[:])}})); err != nil || !cr.OK() || strings.Contains(string(cr.Body), "<Error>") {
 					return fmt.Errorf("%s: after restart the upload cannot be completed: %v %v", where, cr, err)
 				}
+			} else if listed && !isNew {
+				// the completion did not happen: the upload is in its previous state, i.e. every acknowledged part
+				// is still there and the completion can be repeated
+				lp, err := cl().Call("GET", "/"+bkt+"/"+key, s3c.Q("uploadId", pr.uploadID), nil, nil)
+				if err != nil {
+					return fmt.Errorf("SETUP: %v", err)
+				}
+				var parts s3c.ListPartsResult
+				if !lp.OK() || s3c.ParseXML(lp, &parts) != nil {
+					return fmt.Errorf("%s: after restart ListParts of the uncompleted upload answers %v", where, lp)
+				}
+				if len(parts.Parts) != len(pr.parts) {
+					return fmt.Errorf("%s: after restart the key is in its previous state but the upload lists %d parts, %d were acknowledged", where, len(parts.Parts), len(pr.parts))
+				}
+				cr, err := cl().Call("POST", "/"+bkt+"/"+key, s3c.Q("uploadId", pr.uploadID), nil, s3c.CompleteXML(pr.parts))
+				if err != nil || !cr.OK() || strings.Contains(string(cr.Body), "<Error>") {
+					return fmt.Errorf("%s: after restart the completion cannot be repeated: %v %v", where, cr, err)
+				}
+				v2, err := look(cl(), bkt, key, false)
+				if err != nil {
+					return fmt.Errorf("SETUP: %v", err)
+				}
+				if why := v2.matches(newS, key); why != "" {
+					return fmt.Errorf("%s: after restart the repeated completion does not produce the object: %s", where, why)
+				}
 			} else if listed {
-				// completion did not (fully) happen: completing again or aborting must work
+				// the object is there, the clean-up is not: the leftover upload can be aborted
 				if ar, err := cl().Call("DELETE", "/"+bkt+"/"+key, s3c.Q("uploadId", pr.uploadID), nil, nil); err != nil || ar.Status != 204 {
 					return fmt.Errorf("%s: after restart the upload is still listed but cannot be aborted: %v %v", where, ar, err)
 				}
+			} else if !isNew {
+				return fmt.Errorf("%s: after restart the key is in its previous state and the upload is gone: the acknowledged parts are lost", where)
 			}
 		}
 		// earlier acknowledged work is intact
